@@ -2,6 +2,7 @@ package rules
 
 import (
 	"fmt"
+	"go/token"
 	"go/types"
 	"sort"
 	"strings"
@@ -288,4 +289,147 @@ func (c *Ctx) c17OwnerFromRecord() {
 		}
 	}
 	r.Floor("R17.10", "Self/Admin permission checks on a loaded, owned record", n, 2)
+}
+
+// c17ReverseIndex: R17.11.
+func (c *Ctx) c17ReverseIndex() {
+	r := c.R
+	stubCall := func(call ssa.CallInstruction, name string) bool {
+		o := core.CalleeObj(call)
+		return o != nil && o.Name() == name && call.Common().IsInvoke()
+	}
+	// keyCtor: the static function that built a key argument, and its arguments
+	keyCtor := func(v ssa.Value) (*ssa.Function, []ssa.Value) {
+		cl, ok := core.Strip(v).(*ssa.Call)
+		if !ok {
+			return nil, nil
+		}
+		g := core.StaticCallee(cl)
+		if g == nil || g.Signature.Results().Len() != 1 {
+			return nil, nil
+		}
+		return g, cl.Call.Args
+	}
+	elemOfRangeOver := func(v ssa.Value, slice func(ssa.Value) bool) bool {
+		return core.Mentions(v, func(w ssa.Value) bool {
+			// element of a slice range: load of IndexAddr(slice, i)
+			if u, ok := w.(*ssa.UnOp); ok && u.Op == token.MUL {
+				if ia, ok := u.X.(*ssa.IndexAddr); ok && slice(ia.X) {
+					return true
+				}
+			}
+			return false
+		})
+	}
+	n := 0
+	for _, fn := range c.P.ModuleFuncs(true) {
+		if core.PkgOf(fn) != "internal/executor/contracts" || len(fn.Blocks) == 0 {
+			continue
+		}
+		// (i) list stores: SetObject(ListKey(..), <slice parameter>)
+		for _, call := range core.Calls(fn) {
+			if !stubCall(call, "SetObject") || len(call.Common().Args) != 2 {
+				continue
+			}
+			listCtor, listArgs := keyCtor(call.Common().Args[0])
+			lp, isParam := core.Strip(call.Common().Args[1]).(*ssa.Parameter)
+			if listCtor == nil || !isParam {
+				continue
+			}
+			if _, isSlice := lp.Type().Underlying().(*types.Slice); !isSlice {
+				continue
+			}
+			isNewList := func(v ssa.Value) bool { return core.Strip(v) == ssa.Value(lp) }
+			// (ii) reverse entries written for the elements of the new list
+			var entryCtor *ssa.Function
+			for _, c2 := range core.Calls(fn) {
+				if !stubCall(c2, "SetObject") || len(c2.Common().Args) != 2 || !core.InLoop(c2) {
+					continue
+				}
+				g, args := keyCtor(c2.Common().Args[0])
+				if g == nil || g == listCtor {
+					continue
+				}
+				for _, a := range args {
+					if elemOfRangeOver(a, isNewList) {
+						entryCtor = g
+					}
+				}
+			}
+			if entryCtor == nil {
+				continue
+			}
+			n++
+			key := shortFn(fn) + ": " + entryCtor.Name() + " entries of the replaced " + listCtor.Name() + " list are deleted"
+			// loads of the old list: GetObject(ListKey(same args), ..) here or in a helper that receives the owner
+			isOldLoad := func(in ssa.Instruction) bool {
+				cc, ok := in.(ssa.CallInstruction)
+				if !ok {
+					return false
+				}
+				sameOwner := func(args []ssa.Value, in *ssa.Function, actual []ssa.Value) bool {
+					// the key is built by the list constructor from the owner (compared positionally with the store's key)
+					if len(args) != len(listArgs) {
+						return false
+					}
+					for i := range args {
+						a := args[i]
+						if in != fn {
+							// inside a helper: a parameter of the helper stands for the caller's argument
+							if p, ok := core.Strip(a).(*ssa.Parameter); ok {
+								if k := paramIndex(in, p); k >= 0 && k < len(actual) {
+									a = actual[k]
+								}
+							}
+						}
+						if !sameExpr(a, listArgs[i], 0) {
+							return false
+						}
+					}
+					return true
+				}
+				if stubCall(cc, "GetObject") && len(cc.Common().Args) >= 1 {
+					g, args := keyCtor(cc.Common().Args[0])
+					return g == listCtor && sameOwner(args, fn, nil)
+				}
+				if h := core.StaticCallee(cc); h != nil && c.P.InModule(h) && len(h.Blocks) > 0 {
+					for _, hc := range core.Calls(h) {
+						if stubCall(hc, "GetObject") && len(hc.Common().Args) >= 1 {
+							g, args := keyCtor(hc.Common().Args[0])
+							if g == listCtor && sameOwner(args, h, cc.Common().Args) {
+								return true
+							}
+						}
+					}
+				}
+				return false
+			}
+			loads := sites(fn, isOldLoad)
+			hasDelete := false
+			for _, c2 := range core.Calls(fn) {
+				if !stubCall(c2, "Delete") || len(c2.Common().Args) != 1 || !core.InLoop(c2) {
+					continue
+				}
+				if g, _ := keyCtor(c2.Common().Args[0]); g == entryCtor {
+					hasDelete = true
+				}
+			}
+			staleRead := false
+			rs := core.Reach([]core.Point{core.After(call)}, nil, nil)
+			for _, l := range loads {
+				if rs.Has(l) && !core.InLoop(call) {
+					staleRead = true
+				}
+			}
+			switch {
+			case len(loads) == 0 || !hasDelete:
+				r.Bad("R17.11", key, c.P.Pos(call.Pos()), "the list stored under "+listCtor.Name()+" is replaced and a "+entryCtor.Name()+" entry is written for every id of the new list, but the entries of the ids of the old list are never deleted (no load of the stored list / no Delete("+entryCtor.Name()+"(..)) in a loop): an id dropped from the list keeps its entry - a replaced appchain admin still passes the PermissionSelf check, which reads exactly this entry")
+			case staleRead:
+				r.Bad("R17.11", key, c.P.Pos(call.Pos()), "the stored list is read after it was overwritten with the new one: the entries that are deleted are those of the new list, not of the replaced ids")
+			default:
+				r.OK("R17.11", key, c.P.Pos(call.Pos()), "the old list is loaded before it is overwritten and its "+entryCtor.Name()+" entries are deleted in a loop")
+			}
+		}
+	}
+	r.Floor("R17.11", "list + reverse-entry writers", n, 1)
 }
